@@ -157,7 +157,7 @@ func c06Failing(t *rapid.T) kit.Argv {
 		[]string{"BITFIELD", "kmiss", "OVERFLOW", "FAIL", "INCRBY", "u2", "0", "5"}, []string{"HSETNX", "kmiss", "f"}, []string{"HDEL", "kmiss", "f"}, []string{"SREM", "kmiss", "m"}, []string{"LREM", "kmiss", "0", "x"},
 		[]string{"LTRIM", "kmiss", "0", "1"}, []string{"GETEX", "kmiss", "EX", "100"}, []string{"EXPIRE", "kmiss", "100"}, []string{"PERSIST", "kmiss"}, []string{"COPY", "kmiss", "kmiss2"}, []string{"SORT", "kmiss", "STORE", "kmiss2"},
 		[]string{"SINTERSTORE", "kmiss2", "kmiss", "kz"}, []string{"SDIFFSTORE", "kmiss2", "kmiss"}, []string{"BITOP", "AND", "kmiss2", "kmiss"}, []string{"BITOP", "NOT", "kmiss2", "kmiss"}, []string{"APPEND", "kmiss", ""},
-		[]string{"RESTORE", "kmiss", "0", "garbage"}, []string{"RESTORE", "kmiss", "-1", "\x01\x01\x00\x00\x00\x02a\x00\x00\x00\x00\x00\x00\x00\x00"}, []string{"LSET", "kmiss", "0", "q"}, []string{"LPOP", "kmiss", "0"},
+		[]string{"LSET", "kmiss", "0", "q"}, []string{"LPOP", "kmiss", "0"},
 		[]string{"MSETNX", "kmiss", "1", "ks", "2"}, []string{"HSET", "kmiss", "f", "v", "g"}, []string{"SADD", "kmiss"}, []string{"LPUSH", "kmiss"}, []string{"HMSET", "kmiss", "f"},
 	)...)
 }
@@ -223,6 +223,19 @@ func c06Alias(t *rapid.T) []kit.Argv {
 	return out
 }
 
+// c06GoneDest: the destination of a two-key command was removed just before - by DEL, or in one of the ways
+// that leave it in the table (UNLINK, a deadline in the past). Every command must treat it as absent.
+func c06GoneDest(t *rapid.T) []kit.Argv {
+	dst := c06AnyKey(t)
+	src := c06AnyKey(t)
+	return []kit.Argv{goneStep(t, dst), kit.A(pick(t, "into",
+		[]string{"RENAMENX", src, dst}, []string{"COPY", src, dst}, []string{"RENAME", src, dst}, []string{"SETNX", dst, "v"}, []string{"MSETNX", dst, "v", "kfresh", "w"},
+		[]string{"LMOVE", "kl", dst, "LEFT", "RIGHT"}, []string{"SMOVE", "kz", dst, "1"}, []string{"SINTERSTORE", dst, "kz", "kz1"}, []string{"SORT", "kl", "ALPHA", "STORE", dst},
+		[]string{"BITOP", "OR", dst, "ks"}, []string{"SET", dst, "v", "NX"}, []string{"SET", dst, "v", "XX"}, []string{"HSETNX", dst, "f", "v"}, []string{"LPUSHX", dst, "v"}, []string{"APPEND", dst, "tail"},
+		[]string{"INCR", dst}, []string{"EXPIRE", dst, "100"}, []string{"PERSIST", dst}, []string{"GETEX", dst, "EX", "100"},
+	)...), kit.A("EXISTS", dst), kit.A("TYPE", dst)}
+}
+
 func c06Gen(t *rapid.T) SeqCase {
 	var steps []kit.Argv
 	for _, s := range setupTyped() {
@@ -230,7 +243,9 @@ func c06Gen(t *rapid.T) SeqCase {
 	}
 	n := rapid.IntRange(6, 30).Draw(t, "steps")
 	for i := 0; i < n; i++ {
-		switch weighted(t, "kind", []int{9, 4, 5, 3, 1, 2}) {
+		switch weighted(t, "kind", []int{9, 4, 5, 3, 1, 2, 2}) {
+		case 6:
+			steps = append(steps, c06GoneDest(t)...)
 		case 5:
 			steps = append(steps, c06Alias(t)...)
 		case 4:
